@@ -127,7 +127,7 @@ bool runAlias(const Req& r, Resp& R) {
   const std::vector<double>& a = r.a;
   auto& out = R.out;
   const bool w0 = r.mask & 1, w1 = r.mask & 2;
-  J ja, jb;
+  J ja = J::Constant(std::numeric_limits<HX_SC>::quiet_NaN()), jb = ja;   // an entry the library does not write stays NaN
   typename G::OptJacobianRef oa, ob;
   if (w0) oa = ja;
   if (w1) ob = jb;
@@ -374,31 +374,31 @@ void runS(const Req& r, Resp& R) {
   if (S == 'o' && runAlgo<G>(r, R)) return;
   if (S == 'o' && Extra<G>::run(r, R)) return;
   if (op == "exp" && need(DoF)) {
-    TOperand<T, S> t(a.data()); J j;
+    TOperand<T, S> t(a.data()); J j = J::Constant(std::numeric_limits<HX_SC>::quiet_NaN());
     G g = w0 ? t.get().exp(j) : t.get().exp();
     pushM(out, g.coeffs()); if (w0) pushM(out, j);
   } else if (op == "log" && need(Rep)) {
-    Operand<G, S> x(a.data()); J j;
+    Operand<G, S> x(a.data()); J j = J::Constant(std::numeric_limits<HX_SC>::quiet_NaN());
     T t = w0 ? x.get().log(j) : x.get().log();
     pushM(out, t.coeffs()); if (w0) pushM(out, j);
   } else if (op == "inverse" && need(Rep)) {
-    Operand<G, S> x(a.data()); J j;
+    Operand<G, S> x(a.data()); J j = J::Constant(std::numeric_limits<HX_SC>::quiet_NaN());
     G g = w0 ? x.get().inverse(j) : x.get().inverse();
     pushM(out, g.coeffs()); if (w0) pushM(out, j);
   } else if ((op == "compose" || op == "between") && need(2 * Rep)) {
-    Operand<G, S> x(a.data()), y(a.data() + Rep); J ja, jb;
+    Operand<G, S> x(a.data()), y(a.data() + Rep); J ja = J::Constant(std::numeric_limits<HX_SC>::quiet_NaN()), jb = ja;
     typename G::OptJacobianRef oa, ob;
     if (w0) oa = ja; if (w1) ob = jb;
     G g = (op == "compose") ? x.get().compose(y.get(), oa, ob) : x.get().between(y.get(), oa, ob);
     pushM(out, g.coeffs()); if (w0) pushM(out, ja); if (w1) pushM(out, jb);
   } else if ((op == "rplus" || op == "lplus") && need(Rep + DoF)) {
-    Operand<G, S> x(a.data()); TOperand<T, S> t(a.data() + Rep); J ja, jb;
+    Operand<G, S> x(a.data()); TOperand<T, S> t(a.data() + Rep); J ja = J::Constant(std::numeric_limits<HX_SC>::quiet_NaN()), jb = ja;
     typename G::OptJacobianRef oa, ob;
     if (w0) oa = ja; if (w1) ob = jb;
     G g = (op == "rplus") ? x.get().rplus(t.get(), oa, ob) : x.get().lplus(t.get(), oa, ob);
     pushM(out, g.coeffs()); if (w0) pushM(out, ja); if (w1) pushM(out, jb);
   } else if ((op == "rminus" || op == "lminus") && need(2 * Rep)) {
-    Operand<G, S> x(a.data()), y(a.data() + Rep); J ja, jb;
+    Operand<G, S> x(a.data()), y(a.data() + Rep); J ja = J::Constant(std::numeric_limits<HX_SC>::quiet_NaN()), jb = ja;
     typename G::OptJacobianRef oa, ob;
     if (w0) oa = ja; if (w1) ob = jb;
     T t = (op == "rminus") ? x.get().rminus(y.get(), oa, ob) : x.get().lminus(y.get(), oa, ob);
@@ -446,6 +446,20 @@ void runS(const Req& r, Resp& R) {
     TOperand<T, S> ta(a.data()); out.push_back((double)ta.get().squaredWeightedNorm());
   } else if (op == "wnorm" && need(DoF)) {
     TOperand<T, S> ta(a.data()); out.push_back((double)ta.get().weightedNorm());
+  } else if (op == "t_arith" && need(2 * DoF + 1)) {
+    // tangent arithmetic: t*a, a*t, t/a, -t, t+s, t-s, t+v, v+t, v-t  (operands echoed on request: none may change)
+    TOperand<T, S> ta(a.data()), tb(a.data() + DoF);
+    const HX_SC sc = (HX_SC)a[2 * DoF];
+    typename T::DataType vv = tb.get().coeffs();
+    { T r = ta.get() * sc; pushM(out, r.coeffs()); }
+    { T r = sc * ta.get(); pushM(out, r.coeffs()); }
+    { T r = ta.get() / sc; pushM(out, r.coeffs()); }
+    { T r = -ta.get(); pushM(out, r.coeffs()); }
+    { T r = ta.get() + tb.get(); pushM(out, r.coeffs()); }
+    { T r = ta.get() - tb.get(); pushM(out, r.coeffs()); }
+    { T r = ta.get() + vv; pushM(out, r.coeffs()); }
+    { typename T::DataType r = vv + ta.get(); pushM(out, r); }
+    { typename T::DataType r = vv - ta.get(); pushM(out, r); }
   } else if (op == "vee" && need((size_t)(T::LieAlg::RowsAtCompileTime * T::LieAlg::ColsAtCompileTime))) {
     typename T::LieAlg A;
     for (int i = 0; i < A.rows(); ++i) for (int j = 0; j < A.cols(); ++j) A(i, j) = (HX_SC)a[i * A.cols() + j];
